@@ -46,6 +46,7 @@ type RespSpec struct {
 	Size    int    `json:"n"`
 	HSet    int    `json:"h"` // 0 plain | 1 repeated Set-Cookie, empty value, mixed case | 2 Content-Encoding: gzip with a gzip body
 	Close   bool   `json:"cl,omitempty"`
+	Early   bool   `json:"early,omitempty"` // the origin answers as soon as it has the request head, never reads the body, holds the connection
 }
 
 type Exchange struct {
@@ -224,6 +225,7 @@ type builtResp struct {
 	headers []h1harness.HeaderField // end-to-end headers the origin sent
 	body    []byte                  // bytes of the body as the origin sent them (gzip bytes for hset 2)
 	clHead  string                  // Content-Length value sent on a bodiless response ("" if none)
+	early   bool
 	close   bool
 }
 
@@ -236,7 +238,7 @@ func gz(b []byte) []byte {
 }
 
 func buildResp(scID, conn, ex int, method string, r RespSpec) *builtResp {
-	out := &builtResp{status: r.Status}
+	out := &builtResp{status: r.Status, early: r.Early}
 	var sb bytes.Buffer
 	if r.Interim {
 		sb.WriteString("HTTP/1.1 103 Early Hints\r\nLink: </style.css>; rel=preload\r\n\r\n")
@@ -549,6 +551,22 @@ func scenarios(tier string) ([]Scenario, map[string]int) {
 			}
 		}
 	}
+	// Family H (origin answers after the head and never reads the request body; the body is larger than all
+	// buffers, so the proxy itself has to consume the rest of it to keep the client connection in frame)
+	for _, m := range []string{"POST", "PUT"} {
+		for _, f := range []string{"cl", "ch2", "chT"} {
+			for _, st := range []int{200, 404} {
+				for _, follow := range []bool{false, true} {
+					e := Exchange{ReqSpec{Method: m, Abs: true, Proto: "1.1", Framing: f, Size: 300001, Seg: "split"}, RespSpec{Status: st, Framing: "cl", Size: 17, Early: true}}
+					exs := []Exchange{e}
+					if follow {
+						exs = append(exs, alpha[1])
+					}
+					g.add(Scenario{Family: "H_early_response", Conns: [][]Exchange{exs}, BufCap: 8 << 10})
+				}
+			}
+		}
+	}
 	// Family E (large bodies)
 	large := []int{300001}
 	if tier == "thorough" {
@@ -602,7 +620,7 @@ func scenarios(tier string) ([]Scenario, map[string]int) {
 		switch {
 		case s.Family == "G_gzip_seq":
 			s.AlsoTCP = true
-		case s.Mode != "" || s.Family == "E_large":
+		case s.Mode != "" || s.Family == "E_large" || s.Family == "H_early_response":
 		case strings.HasPrefix(s.Family, "D_"):
 			s.AlsoTCP = i%23 == 0
 		default:
@@ -772,6 +790,20 @@ func (o *originScript) handler(conn, idx int, req *h1harness.RawRequest, perr er
 		return h1harness.Action{Write: [][]byte{[]byte("HTTP/1.1 599 Unknown Exchange\r\nContent-Length: 0\r\n\r\n")}}
 	}
 	return h1harness.Action{Write: [][]byte{r.wire}, Close: r.close}
+}
+
+func (o *originScript) early(conn, idx int, head *h1harness.RawRequest) *h1harness.Action {
+	t := ""
+	if v := head.Get("X-Exchange"); len(v) > 0 {
+		t = v[0]
+	}
+	o.mu.Lock()
+	r := o.resps[t]
+	o.mu.Unlock()
+	if r == nil || !r.early {
+		return nil
+	}
+	return &h1harness.Action{Write: [][]byte{r.wire}}
 }
 
 // runConn drives one client connection through its exchanges and applies the reference model.
@@ -1065,6 +1097,9 @@ func checkOrigin(s *Scenario, log []*h1harness.RawRequest, parseErrs []string, o
 			for _, name := range multisetMissing(w.headers, r.Get, nil) {
 				add("req_header_lost:"+name, fmt.Sprintf("client sent %v, origin received %q", valuesOf(w.headers, name), r.Get(name)))
 			}
+			if e.Resp.Early {
+				continue // the origin deliberately did not read the body
+			}
 			if d := firstDiff(r.Body, w.payload); d >= 0 {
 				add("req_body", fmt.Sprintf("request body differs at offset %d (origin got %d bytes, client sent %d)", d, len(r.Body), len(w.payload)))
 			}
@@ -1099,7 +1134,7 @@ func runScenario(s *Scenario, kind string, quiet time.Duration) *runOut {
 			sent[tag(ci, k)] = buildReq(s.ID, ci, k, e.Req)
 		}
 	}
-	origin := &h1harness.Origin{Handler: script.handler, Continue100: true}
+	origin := &h1harness.Origin{Handler: script.handler, Early: script.early, Continue100: true}
 	env, err := h1harness.NewEnv(h1harness.EnvOpts{Kind: kind, BufCap: s.BufCap}, origin)
 	if err != nil {
 		out.findings = append(out.findings, finding{0, "harness", "env_failed", err.Error()})
